@@ -155,6 +155,12 @@ def comps_of(circuit):
 
 
 def handle(case):
+    if case.get('k') == 'deep':       # a chain at the documented depth limit: only the number of listed operations is observed
+        c = DeclarativeCircuit()
+        for _ in range(case['n']):
+            c.add(co.Wait(0, duration_strategy=FixedDurationStrategy(0.5)))
+        ops = c.operations
+        return {'listed': len(ops), 'again': len(c.operations) == len(ops)}
     if case.get('k') in ('repcode', 'simplified', 'multi', 'calib'):      # library-built circuits
         import lib_impl
         return lib_impl.handle(case)
